@@ -30,6 +30,10 @@ TRAP = {"arg_unpickle": "TDie", "task_start": "TDie", "mid_task": "TDie", "resul
         "arg_unloadable": "TBadArgs"}
 
 
+EXTRA_SIGNALS = ["SIGRT+1", "SIGRT+5", "SIGRT+12", "SIGRT+29", "SIGABRT", "SIGBUS", "SIGUSR1", "SIGUSR2", "SIGHUP",
+                 "SIGQUIT", "SIGFPE", "SIGILL", "SIGALRM", "SIGXCPU"]
+
+
 # ------------------------------------------------------------------ scenarios
 def sc(kind, how="SIGKILL", n_jobs=2, victims=(0,), managed=False, n_tasks=8, sleep=0.05, gen=False, big=0,
        watchdog=60):
@@ -70,6 +74,17 @@ def quick_scenarios(rng):
         sc("result_garbage", "SIGKILL", 3, [1], managed=True),
         sc("none", "SIGKILL", 2, []),
         sc("none", "SIGKILL", 3, [], managed=True),
+        # the whole signal range: real-time signals that have NO name in signal.Signals (SIGRTMIN+k, 35.. on
+        # Linux: the exit-code formatting of the TerminatedWorkerError message must cope), core-dumping and
+        # user signals
+        sc("mid_task", "SIGRT+1", 2, [1]),
+        sc("mid_task", "SIGRT+5", 3, [2], managed=True),
+        sc("idle_settled", "SIGRT+1", 3, [0], managed=True),
+        sc("idle_settled", "SIGRT+5", 2, [1]),
+        sc("mid_task", "SIGABRT", 2, [0]),
+        sc("idle_settled", "SIGBUS", 3, [2]),
+        sc("task_start", "SIGUSR1", 3, [1], managed=True),
+        sc("startup_gen", "SIGRT+3", 2, [0]),
     ]
     return S + random_scenarios(rng, 3)
 
@@ -84,14 +99,14 @@ def random_scenarios(rng, n, allow_midsend=False):
         n_tasks = rng.choice([5, 8, 11])
         if kind in BETWEEN:
             victims = sorted(rng.sample(range(n_jobs), rng.randint(1, n_jobs)))
-            how = rng.choice(["SIGKILL", "SIGSEGV", "SIGTERM"])
+            how = rng.choice(["SIGKILL", "SIGSEGV", "SIGTERM"] + EXTRA_SIGNALS)
         elif kind == "after_send":
             victims, how = [0], "SIGKILL"
         elif kind in UNSERIALIZE or kind == "mid_send":
             victims, how = [rng.randrange(n_tasks)], "SIGKILL"
         else:
             victims = sorted(rng.sample(range(n_tasks), rng.randint(1, min(n_jobs, 3))))
-            how = rng.choice(["SIGKILL", "SIGSEGV", "exit"])
+            how = rng.choice(["SIGKILL", "SIGSEGV", "exit"] + EXTRA_SIGNALS)
         out.append(sc(kind, how, n_jobs, victims, managed=rng.random() < 0.5, n_tasks=n_tasks,
                       sleep=0.2 if kind == "after_send" else rng.choice([0.0, 0.02, 0.05]),
                       gen=rng.random() < 0.15, big=rng.choice([0, 0, 0, 200000])))
